@@ -514,6 +514,10 @@ def check_constraint(fm, sem, c, scope, seq, opts):
             idx = c['index'] * sus
             t = e + idx if idx < 0 else s + idx
             if not (s <= t < e):
+                if isinstance(scope, tuple) and e == sem.T and (e - s) < scope[0] and idx >= 0:
+                    # A3: the pinned trial lies beyond a cut-short last repetition - whether the Pin is void there or the design
+                    # is unsatisfiable is not determined by the documentation
+                    raise RefUnsupported('A3: Pin index beyond the partial last repetition')
                 return False
             for u in range(t, min(t + sus, e)):
                 if seq[c['factor']][u] != c['level']:
